@@ -55,6 +55,12 @@ def handleMatchKey (args : List String) : Option String :=
     let s ← decodeStr p
     let segs := splitSlash s []
     some s!"match={encodeStr (joinSlash (normalize segs))} baseline={encodeStr (joinSlash (baselineKey segs))}"
+  | [p, below] => do
+    let s ← decodeStr p
+    let b ← decodeStr below
+    let segs := splitSlash s []
+    let bsegs := if b.isEmpty then [] else splitSlash b []
+    some s!"match={encodeStr (joinSlash (normalize segs))} baseline={encodeStr (joinSlash (baselineKeyAt bsegs segs))}"
   | _ => none
 
 end SlocModel.Driver
